@@ -97,7 +97,7 @@ def check_commit_discipline(prog, rep, prop="C06"):
                     bad_n = [c for cn, c in ccommits.items() if cn not in good]
                     why = "a path from the statement reaches a normal exit without conditional_commit()/commit(): the write never counts towards the commit batch, so the uncommitted tail is unbounded"
                     if bad_n:
-                        why = f"conditional_commit({norm(bad_n[0].args[0]) if bad_n[0].args else ''}) does not follow / does not count the rows written by this statement (expected {'len(' + (s.rows_var or 'rows') + ')' if s.many else '1'}): the counter under-counts and the tail is unbounded"
+                        why = f"conditional_commit({norm(bad_n[0].args[0]) if bad_n[0].args else ''}) does not follow / does not count the rows written by this statement (expected {'len(' + (s.rows_var or 'rows') + ')' if s.many else ('len(' + s.replicated_over + '): one placeholder per element' if getattr(s, 'replicated_over', None) else '1')}): the counter under-counts and the tail is unbounded"
                     rep.violation("COMMIT-B", fi.short, cons, why, s.loc(), path=w)
             if mname in ("insert_one", "replace", "replace_last", "delete"):
                 ok = len(ss) == 1 and not in_loop(ss[0].call) and not ss[0].many
@@ -350,6 +350,9 @@ def _count_arg_ok(ccall, site, fi):
         v = single_def(fi, a.id)
         if v is not None:
             a = v
+    if not site.many and getattr(site, "replicated_over", None):
+        # one placeholder per element of a sequence (id IN (?, ?, ...)): the statement changes up to len(sequence) rows
+        return isinstance(a, ast.Call) and norm(a.func) == "len" and len(a.args) == 1 and norm(a.args[0]) == site.replicated_over
     if not site.many:
         return isinstance(a, ast.Constant) and isinstance(a.value, int) and not isinstance(a.value, bool) and a.value >= 1
     # executemany(query, rows) -> len(rows)
